@@ -372,6 +372,26 @@ def rw_spawn_calls(text, log):
     return text
 
 
+def rw_map(text, log):
+    """R16: X.map(|v| E)  ->  match X { Ok(v) => Ok(E), Err(e__) => Err(e__) }   (Result::map; std's definition.  A closure without a
+    written specification gives Verus no fact about its result.)"""
+    st = rtok.sig(rtok.lex(text))
+    for i in range(len(st) - 6):
+        if st[i][1] == '.' and st[i + 1][1] == 'map' and st[i + 2][1] == '(' and st[i + 3][1] == '|' \
+                and st[i + 4][0] == 'ident' and st[i + 5][1] == '|':
+            close = rtok.match_close(st, i + 2)
+            xs = _stmt_start(st, i)
+            v = st[i + 4][1]
+            spans = [
+                (st[xs][2], st[xs][2], 'match '),
+                (st[i][2], st[i + 5][3], ' { Ok(%s) => Ok(' % v),
+                (st[close][2], st[close][3], '), Err(e__) => Err(e__) }'),
+            ]
+            log.append('R16 Result::map(|%s| ..) -> match' % v)
+            return _replace_spans(text, spans)
+    raise AnchorLost('R16: no `.map(|v| ..)` found')
+
+
 def rw_vecslice(text, names, log):
     """R8: `&mut NAME[` -> `&mut NAME.as_mut_slice()[` ; `&NAME[` -> `&NAME.as_slice()[`"""
     st = rtok.sig(rtok.lex(text))
@@ -601,6 +621,8 @@ def build_fn(fs, repo, effectful, table_keys, canary=False):
             text = rw_unwrap_or_else(text, log)
         elif kind == 'and_then':
             text = rw_and_then(text, log)
+        elif kind == 'map':
+            text = rw_map(text, log)
         elif kind == 'spawn_calls':
             text = rw_spawn_calls(text, log)
         elif kind == 'guard_to_if':
